@@ -148,3 +148,20 @@ def lib_call(site, step, fn, *args, judged=True, stats=None, **kw):
 
 class LibRaisedUnderFault(Exception):
     pass
+
+
+def warm_jit():
+    """Canonical warm-up of lazily specialised kernels, narrow -> wide, so that
+    in the default configuration a session's behaviour cannot depend on which
+    session ran before it in the same worker. (The `history` configurations
+    skip this on purpose: there the process history is part of the plan.)"""
+    import sigpy as sp
+
+    for dt in (np.float32, np.float64, np.complex64, np.complex128):
+        a = np.array([1.5, -0.25, 0.0], dtype=dt)
+        lam32 = np.array([0.5, 0.5, 0.5], dtype=np.float32)
+        sp.thresh.soft_thresh(0.5, a)
+        sp.thresh.hard_thresh(0.5, a)
+        if dt in (np.float32, np.complex64):
+            sp.thresh.soft_thresh(lam32, a)
+        sp.thresh.soft_thresh(lam32.astype(np.float64), a)
